@@ -93,17 +93,13 @@ def network_simplex(
     root = n
 
     # Spanning tree: parent[i] = parent node, pred[i] = arc to parent, depth[i] = tree depth
-    # thread/rev_thread = preorder traversal links for fast subtree iteration
+    # tree_adj[i] = basic arcs incident to node i, used to re-hang a subtree after a pivot
     parent = [root] * total_nodes
     parent[root] = -1
     pred = list(range(m, m + n)) + [-1]
     depth = [1] * total_nodes
     depth[root] = 0
-    thread = list(range(1, total_nodes)) + [0]
-    thread[n - 1] = root
-    thread[root] = 0
-    rev_thread = [root] + list(range(total_nodes - 1))
-    rev_thread[root] = n - 1
+    tree_adj = [{m + i} for i in range(n)] + [set(range(m, m + n))]
 
     # pi[i] = node potential (dual variable); reduced cost = cost - pi[src] + pi[tgt]
     pi = [0.0] * total_nodes
@@ -115,14 +111,8 @@ def network_simplex(
             pi[i] = pi[root] - cost[arc]
 
     # state[arc]: 1 = at lower bound (can increase), -1 = at upper bound (can decrease), 0 = basic (in tree)
-    state = [0] * total_arcs
-    for arc in range(total_arcs):
-        if flow[arc] == 0:
-            state[arc] = 1
-        elif flow[arc] == cap[arc]:
-            state[arc] = -1
-        else:
-            state[arc] = 0
+    # Initial basis: all artificial arcs; original arcs start empty, at their lower bound
+    state = [1] * m + [0] * n
 
     iterations = 0
 
@@ -216,69 +206,40 @@ def network_simplex(
                 flow[arc] -= delta
             node = parent[node]
 
-        for arc in range(total_arcs):
-            if flow[arc] == 0:
-                state[arc] = 1
-            elif flow[arc] == cap[arc]:
-                state[arc] = -1
+        # Entering arc went from one bound to the other: basis tree is unchanged
+        if leaving == entering:
+            state[entering] = -state[entering]
+            continue
+
+        # Basis change: the leaving arc drops to the bound it hit, the entering arc becomes basic
+        state[entering] = 0
+        state[leaving] = 1 if flow[leaving] == 0 else -1
+        tree_adj[source[leaving]].discard(leaving)
+        tree_adj[target[leaving]].discard(leaving)
+        tree_adj[source[entering]].add(entering)
+        tree_adj[target[entering]].add(entering)
+
+        # Removing the leaving arc cuts off the subtree holding one endpoint of the entering arc.
+        # Re-hang that subtree under the entering arc: this reverses the parent links on the path
+        # from that endpoint to the leaving arc and refreshes depth and potential of every moved node.
+        subtree_root, new_parent = (first, second) if leaving_first else (second, first)
+        parent[subtree_root] = new_parent
+        pred[subtree_root] = entering
+        stack = [subtree_root]
+        while stack:
+            node = stack.pop()
+            arc = pred[node]
+            depth[node] = depth[parent[node]] + 1
+            if source[arc] == node:
+                pi[node] = pi[parent[node]] + cost[arc]
             else:
-                state[arc] = 0
-
-        if leaving != entering:
-            if leaving_first:
-                leaving_node = first
-                while pred[leaving_node] != leaving:
-                    leaving_node = parent[leaving_node]
-                new_parent = second
-            else:
-                leaving_node = second
-                while pred[leaving_node] != leaving:
-                    leaving_node = parent[leaving_node]
-                new_parent = first
-
-            prev_thread = rev_thread[leaving_node]
-            subtree_last = leaving_node
-            node = thread[leaving_node]
-            while depth[node] > depth[leaving_node]:
-                subtree_last = node
-                node = thread[node]
-
-            thread[prev_thread] = thread[subtree_last]
-            rev_thread[thread[subtree_last]] = prev_thread
-
-            attach_point = new_parent
-            node = thread[new_parent]
-            while node != new_parent and depth[node] > depth[new_parent]:
-                attach_point = node
-                node = thread[node]
-
-            thread[subtree_last] = thread[attach_point]
-            if thread[attach_point] < total_nodes:
-                rev_thread[thread[attach_point]] = subtree_last
-            thread[attach_point] = leaving_node
-            rev_thread[leaving_node] = attach_point
-
-            parent[leaving_node] = new_parent
-            pred[leaving_node] = entering
-
-            diff = depth[new_parent] + 1 - depth[leaving_node]
-            node = leaving_node
-            while True:
-                depth[node] += diff
-                node = thread[node]
-                if depth[node] <= depth[leaving_node] - diff or node == leaving_node:
-                    break
-
-            node = leaving_node
-            while True:
-                arc = pred[node]
-                if source[arc] == parent[node]:
-                    pi[node] = pi[parent[node]] - cost[arc]
-                else:
-                    pi[node] = pi[parent[node]] + cost[arc]
-                node = thread[node]
-                if depth[node] <= depth[new_parent] or node == leaving_node:
-                    break
+                pi[node] = pi[parent[node]] - cost[arc]
+            for child_arc in tree_adj[node]:
+                if child_arc != arc:
+                    child = target[child_arc] if source[child_arc] == node else source[child_arc]
+                    parent[child] = node
+                    pred[child] = child_arc
+                    stack.append(child)
 
     for arc in range(m, total_arcs):
         if flow[arc] > 0:
